@@ -10,7 +10,7 @@ ID = 'C09'
 RULE = ('Hypothesis search inputs, degenerate-biased: 1-4 geos, eligibility styles {none, all-control, all-treatment, '
         'all-excluded, fixed-heavy, mixed}, unsatisfiable or extreme constraints (size ranges beyond the geos, tolerances '
         '1e-3, unsatisfiable-low/high share and budget ranges, n_geos_max, iroas=0, n_pretest_max=n_test+3), plus the general '
-        'generator (<=6 geos) for breadth; both searches, each on a fresh object, under a CPU-time watchdog (20 s quick / 120 s thorough); plus accepted-but-unusual inputs (integer-valued float size ranges, tests of ~100 time points, bit-identical geos). '
+        'generator (<=6 geos) for breadth; both searches, each on a fresh object, under a CPU-time watchdog (20 s quick / 120 s thorough); plus accepted-but-unusual inputs (integer-valued float size ranges, tests of ~100 time points, bit-identical geos) and, in ~4% of the cases, 65-72 geos of which 3-4 are treatable, one control geo per design and a budget cap just above the dearest single geo (quick tier: exhaustive search only for these). '
         'Non-trivial = some search returned [] or ValueError, or the admitted set is smaller than 2; distinct by '
         '(eligibility class vector, set of specified constraints, outcomes).')
 BUDGET = {'quick': 1600, 'thorough': 60000}
@@ -64,11 +64,38 @@ def _special(draw):
   return spec
 
 
+@st.composite
+def _many_geos(draw):
+  """A realistic number of geos (65-72) with a search space kept small by eligibility: 3-4 treatable geos (some among
+  the smallest, i.e. at the end of the geo index), everything else control-or-excluded, one control geo per design,
+  treatment groups of 1-3 geos, and a budget cap a little above the most expensive single treatable geo."""
+  base = draw(G.search_spec(max_geos=12, min_geos=12, constraint_p=0.0, allow_budget=False, allow_share=False, elig_style='none', max_dates=14))
+  p0 = base['panel']
+  n = draw(st.integers(65, 72))
+  nd = p0['n_dates']
+  panel = dict(p0, ids=[str(i + 1) for i in range(n)], id_int=draw(st.booleans()), flat=[], missing=[], copy=[], row_labels=None, offset=0,
+               level=[p0['level'][i % 12] for i in range(n)], amp=[p0['amp'][i % 12] for i in range(n)],
+               sign=[1] * n, early=[1] * n,
+               noise=[[(p0['noise'][i % 12][d] * (1 + i // 12) + 37 * i * (d + 1) + 11 * d * d) % 1021 - 510 for d in range(nd)] for i in range(n)])
+  k = draw(st.integers(3, 4))
+  treat = draw(st.lists(st.integers(0, n - 1), min_size=k, max_size=k, unique=True))
+  for j, i in enumerate(treat):
+    panel['level'][i] = [32, 32, 1, 1][j]             # two large and one or two of the smallest geos
+  rows = [[panel['ids'][i]] + ([0, 1, 1] if i in treat else [1, 0, 1]) for i in range(n)]
+  params = dict(base['params'], n_designs=draw(st.sampled_from([1, 3])), treatment_geos_range=[1, 3], control_geos_range=[1, 1],
+                geo_ratio_tolerance=None, volume_ratio_tolerance=None, n_geos_max=None, share_q=None, budget_q=None,
+                budget_rel=draw(st.sampled_from([1.05, 1.3, 2.5])), iroas=draw(st.sampled_from([1.0, 3])))
+  return {'panel': panel, 'elig': {'rows': rows, 'as_index': draw(st.booleans()), 'style': 'many-geos', 'col_order': None, 'row_labels': None},
+          'params': params, 'history': None, 'special': 'many-geos'}
+
+
 def strategy(tier):
   big = 6 if tier == 'quick' else 8
-  return st.one_of(G.search_spec(max_geos=4, degenerate=True, constraint_p=0.6), _special(),
-                   G.search_spec(max_geos=2, degenerate=True, constraint_p=0.4),
-                   G.search_spec(max_geos=big, constraint_p=0.5))
+  usual = st.one_of(G.search_spec(max_geos=4, degenerate=True, constraint_p=0.6), _special(),
+                    G.search_spec(max_geos=2, degenerate=True, constraint_p=0.4),
+                    G.search_spec(max_geos=big, constraint_p=0.5))
+  # ~4% of the cases carry 65-72 geos (about 10 CPU-seconds each, mostly the greedy search)
+  return st.integers(0, 24).flatmap(lambda k: _many_geos() if k == 0 else usual)
 
 
 def run(spec):
@@ -80,9 +107,12 @@ def run(spec):
   if spec.get('special'):
     cls.append('special:' + spec['special'])
   det = L.describe(case)
-  for method in ('exhaustive_search', 'greedy_search'):
+  import os
+  methods = ('exhaustive_search', 'greedy_search')
+  if spec.get('special') == 'many-geos' and os.environ.get('VERIF_TIER_EFFECTIVE', 'thorough') == 'quick':
+    methods = ('exhaustive_search',)        # the greedy search over ~70 geos takes ~10 CPU-seconds: thorough tier only
+  for method in methods:
     old = signal.signal(signal.SIGVTALRM, _alarm)
-    import os
     budget = WATCHDOG.get(os.environ.get('VERIF_TIER_EFFECTIVE', 'thorough'), 120)
     signal.setitimer(signal.ITIMER_VIRTUAL, budget)
     try:
@@ -109,6 +139,7 @@ def run(spec):
       kind = res[1].replace('%s:crash:' % method, '')
       viol.append(('C09:%s:%s' % (method, kind), dict(det, exc=res[2])))
   cls += ['%s:%s' % (m[:3], o) for m, o in zip(('exhaustive', 'greedy'), outcomes)]
+  outcomes += ['not-run'] * (2 - len(outcomes))
   nt = any(o in ('empty', 'ValueError') for o in outcomes) or (not sp.reject and len(sp.adm) < 2 and 'rejected' not in outcomes)
   vec = tuple(sorted(sp.elig.values())) if not sp.reject else ('reject',)
   key = repr((vec, tuple(sorted(k for k in case.kwargs if k not in ('n_test', 'iroas', 'n_designs'))), tuple(outcomes)))
